@@ -4,7 +4,9 @@ func init() {
 	reg("C06", propCfg{Pkg: "./props/c06", Rule: "algebraic laws over generated pairs plus reference values where the statement defines them",
 		Assumptions: assume(
 			"a decimal numeral is ^[+-]?[0-9]+(\\.[0-9]+)?([eE][+-]?[0-9]+)?$; it denotes an int64 when it is an integer numeral in range, otherwise the float64 strconv.ParseFloat returns",
-			"no reference value (laws only) for: a bool on exactly one side, a container against a non-nil primitive, containers differing only between leaves of different types, hex/binary/underscore/Inf/NaN/partial numeral spellings, integer numerals outside int64, float numerals that overflow or underflow",
+			"no reference value (laws only) for: a bool on exactly one side, a container against a non-nil primitive, containers differing only between leaves of different types, numerals with an empty integer or fraction part (\".5\", \"5.\"), digits outside ASCII, integer numerals outside int64, float numerals that overflow or underflow",
+			"a string that is a spelling of a number but no decimal numeral, with or without white space around it - hexadecimal float, 0x/0b/0o integer, digits separated by _, Inf/Infinity/NaN in any case, a numeral with anything left over (\"1x\", \"1e\", \"1.0.0\", \"1,000\", \"--1\") - equals no number, whatever strconv reads out of it",
+			"live-slot: `in`, `switch` and `==` over one pair of operand expressions evaluated from the same state give one answer also when the right-hand expression overwrites the slot the left-hand one reads; which value of the slot takes part is not asserted (C07)",
 			"a decimal numeral with white space around it: unequal to every number the numeral itself is defined unequal to (true under the strict reading 'such a string is no numeral' and under the lenient one 'it denotes what the numeral denotes'); no reference value where the numeral itself equals the number",
 			"'two values of the same primitive type' covers every Go primitive numeric type a script can hold (float32, int8..int, uint8..uint64): two operands of ONE such type are equal exactly when Go's == on the two values says so; operands of two different such types: laws only",
 			"pointers, functions, structs, arrays, channels, complex numbers, values of named types, typed containers, errors: laws only ('for every pair of values'), no reference value",
